@@ -103,3 +103,13 @@ pub async fn gate(name: &str) {
         p.forget();
     }
 }
+
+/// Named pause point for synchronous code running inside `block_in_place`.
+pub fn gate_blocking(name: &str) {
+    if !GATES.lock().contains_key(name) {
+        return;
+    }
+    if let Ok(handle) = tokio::runtime::Handle::try_current() {
+        handle.block_on(gate(name));
+    }
+}
